@@ -263,7 +263,8 @@ ORACLE = {
 
 def run(pid, tier, seed):
   ev = common.Evidence(pid, "exploration", tier, seed)
-  args = [(pid, fx, k, n, s1, s2, seed, ms) for (fx, k, n, s1, s2, ms) in plan(pid, tier)]
+  pl = plan(pid, tier)
+  args = [(pid, fx, k, n, s1, s2, seed, common.fit_cap(ms, len(pl), tier)) for (fx, k, n, s1, s2, ms) in pl]
   results = common.pmap(run_shard, args)
   runs = nontriv = queries = 0
   solver_s = 0.0
